@@ -10,6 +10,18 @@ Mode 1 (deterministic schedules, the correspondence).  The REAL `utils.lock_tty`
       worker thread that begins, through the real `_process_run_wrapper`, when the stub
       start is executed)
 
+Every simulated PROCESS has its own instance of the module `term_image.utils` (its own module
+globals `_tty_lock`, `_queries_enabled`, ...; `lock_tty` and both wrappers of that instance are
+the real code executed from the library's source): the root's is created afresh for the case, a
+child's is created when the stub start runs — start method "spawn": a fresh instance (what a new
+interpreter gets by importing the library), "fork": a fresh instance into which the parent's
+module STATE at that moment is copied (a thread lock becomes a private copy, a multiprocessing
+lock stays shared).  So a child that is handed nothing (or does not install what it is handed)
+really runs on a private lock.  Schedule items >= 1000 are CONFIGURATION changes performed in a
+process (1000 + 8*process + 2*field + value; field 0: term_image.enable_queries() /
+disable_queries(), 1: enable_win_size_swap() / disable_win_size_swap(), 2: set_query_timeout()),
+executed by the scheduler on behalf of some thread of that process.
+
 and every intercepted call (lock acquire / release, entry to and return from the body of a
 `lock_tty`-decorated probe, the terminal round trip inside the body, the lock factory, the
 stub start) PARKS the calling thread until a central scheduler grants it the step.  Exactly
@@ -61,6 +73,7 @@ class Harness:
         self.error = None
         self.abort = False
         self.xres = {}
+        self.prologue = False
 
     def me(self):
         return self.by_ident[threading.get_ident()]
@@ -102,11 +115,9 @@ class Worker:
         h.by_ident[threading.get_ident()] = self
         try:
             self.park("idle")
-            if self.proc != 0 and self.tid == self.proc:
-                # main thread of a child process: the real run wrapper installs the handed lock
-                U._process_run_wrapper(h.procobj[self.proc])
-            else:
-                self.run_program()
+            # (the main thread of a child process has been through the real run wrapper of the child's
+            # module instance when the process came into being: see stub_start)
+            self.run_program()
         except Abort:
             pass
         except BaseException as e:  # noqa: BLE001
@@ -122,7 +133,7 @@ class Worker:
                 self.park("idle")
             first = False
             if cmd[0] == "call":
-                h.probe(cmd[1], bool(cmd[2]))
+                h.probe_of(self.proc)(cmd[1], bool(cmd[2]))
             elif cmd[0] == "xq":  # a REAL query function of the library (first, uncached call)
                 h.xres[str(self.tid)] = repr(XQ[cmd[1]]())
             elif cmd[0] == "xs":  # urwid's event loop: the started screen's input reader
@@ -131,7 +142,7 @@ class Worker:
                 r = U.read_tty_all()
                 h.xres[str(self.tid)] = None if r is None else r.hex()
             else:
-                U._process_start_wrapper(h.procobj[cmd[1]])
+                h.mods[self.proc]._process_start_wrapper(h.procobj[cmd[1]])
 
 
 class TracedLock:
@@ -197,6 +208,64 @@ class ProcObj:
 
     def __init__(self, child):
         self.child = child
+
+
+# ------------------------------------------------------------------ one module instance per process
+
+UTILS_PATH = os.path.join(SRC, "term_image", "utils.py")
+PLAIN = (bool, int, float, str, bytes, tuple, type(None))
+CONF_BASE = 1000
+
+
+def fresh_utils():
+    """a new instance of term_image.utils, executed from the library's source: what an
+    interpreter gets by importing the library"""
+    import importlib.util
+    from multiprocessing import Process
+
+    spec = importlib.util.spec_from_file_location("term_image.utils", UTILS_PATH)
+    mod = importlib.util.module_from_spec(spec)
+    saved = Process.start, Process.run
+    try:
+        spec.loader.exec_module(mod)
+    finally:  # (with a controlling terminal the module wraps Process.start / run: not wanted here)
+        Process.start, Process.run = saved
+    return mod
+
+
+def conf_functions(mod):
+    """the configuration functions of the package, bound to that instance of utils"""
+    import types
+
+    import term_image as TI
+
+    g = dict(TI.__dict__)
+    g["utils"] = mod
+    f = {n: types.FunctionType(getattr(TI, n).__code__, g, n) for n in (
+        "enable_queries", "disable_queries", "enable_win_size_swap", "disable_win_size_swap", "set_query_timeout")}
+    default = TI.DEFAULT_QUERY_TIMEOUT
+    return {(0, 1): f["enable_queries"], (0, 0): f["disable_queries"],
+            (1, 1): f["enable_win_size_swap"], (1, 0): f["disable_win_size_swap"],
+            (2, 1): lambda: f["set_query_timeout"](0.25), (2, 0): lambda: f["set_query_timeout"](default)}
+
+
+def fork_state(h, parent, child, proc):
+    """os.fork(): the child's module state is a copy of the parent's at that moment"""
+    for k, v in list(vars(parent).items()):
+        if k.startswith("__") or k in ("_rlock_type", "mp_RLock"):
+            continue
+        if isinstance(v, TLock):  # a thread lock is copied: a private lock in the same state
+            lock = TLock(h, 100 + proc)
+            lock.owner, lock.count = v.owner, v.count
+            setattr(child, k, lock)
+        elif isinstance(v, MLock):  # a multiprocessing lock is shared
+            setattr(child, k, v)
+        elif isinstance(v, REAL_RLOCK_TYPE):
+            setattr(child, k, threading.RLock())
+        elif isinstance(v, list) and all(isinstance(x, PLAIN) for x in v):
+            setattr(child, k, list(v))
+        elif isinstance(v, PLAIN) or type(v).__module__.startswith("multiprocessing"):
+            setattr(child, k, v)  # plain data is copied; shared memory (the cell-size Array) stays shared
 
 
 # ------------------------------------------------------------------ exchange scenarios
@@ -356,11 +425,28 @@ def run_schedule(case):
                 h.procobj.setdefault(cmd[1], ProcObj(cmd[1]))
 
     # ---- patch points
-    U._tty_lock = TLock(h, 0)
-    U._rlock_type = ThreadLockType
-    U._cell_size_cache = [0] * 4
-    U._cell_size_lock = threading.RLock()
+    exchange = any(cmd[0] in ("xq", "xr", "xs") for _, _, prog in case["threads"] for cmd in prog)
+    method = case.get("method", "spawn")
+    # the root process: the imported module for the exchange scenarios (the screen class is bound
+    # to it), otherwise an instance of its own, so that no module state survives from case to case
+    root = U if exchange else fresh_utils()
+    h.mods = {0: root}
+    h.conf = {0: conf_functions(root)}
+    h.probes = {}
+
+    def instrument(mod, proc, fresh_lock):
+        if fresh_lock:
+            mod._tty_lock = TLock(h, 0 if proc == 0 else 100 + proc)
+        mod._rlock_type = ThreadLockType
+        mod.mp_RLock = factory
+        mod._process_start_wrapper.__wrapped__ = stub_start
+        mod._process_run_wrapper.__wrapped__ = stub_run
+
+    root._queries_enabled, root._swap_win_size = True, False
+    root._cell_size_cache = [0] * 4
+    root._cell_size_lock = threading.RLock()
     made = []
+    starts_conf = []  # (histogram) the configuration of the starting process at each Process.start()
     term = None
     screen = screen_in = None
     if any(cmd[0] in ("xq", "xr", "xs") for _, _, prog in case["threads"] for cmd in prog):
@@ -368,7 +454,7 @@ def run_schedule(case):
 
         term = ScriptedTerminal(h)
         U._tty_fd = term.slave
-        U._queries_enabled, U._query_timeout, U._swap_win_size = True, 5.0, False
+        U._query_timeout = 5.0
         U.os, U.termios = OSProxy(h, term), TermiosProxy(h, term)
         U.get_terminal_name_version._invalidate_cache()
         U.get_fg_bg_colors._invalidate_cache()
@@ -385,11 +471,8 @@ def run_schedule(case):
             screen_in = os.fdopen(os.dup(term.slave), "rb", buffering=0)
             term.fds.add(screen_in.fileno())
             screen = h.screen = UrwidImageScreen(screen_in, io.StringIO())
-            traced, U._tty_lock = U._tty_lock, threading.RLock()  # started by the scheduler's own thread,
-            try:                                                  # before any worker runs: not a scheduled step
-                screen.start()
-            finally:
-                U._tty_lock = traced
+            U._tty_lock = threading.RLock()  # started by the scheduler's own thread, before any worker
+            screen.start()                   # runs: not a scheduled step (the traced lock is installed below)
             UP.os = OSProxy(h, term)
 
     def factory():
@@ -400,44 +483,64 @@ def run_schedule(case):
         h.ev(w, 7)
         return lock
 
-    U.mp_RLock = factory
-
     def stub_start(self, *a, **k):
+        """stands for the original Process.start: the child process comes into being here"""
         w = h.me()
         w.park("start")
         # what the child is handed (`self._tty_lock`, installed by the real _process_run_wrapper):
-        # 0 = the thread lock, 1.. = a multiprocessing lock, 9 = nothing
+        # 0 = the root's thread lock, 1.. = a multiprocessing lock, 100+p = a private thread lock, 9 = nothing
         handed = getattr(self, "_tty_lock", None)
         h.ev(w, 8, self.child, handed.code if isinstance(handed, TracedLock) else 9)
+        starts_conf.append([w.proc, int(bool(h.mods[w.proc]._queries_enabled)), int(bool(h.mods[w.proc]._swap_win_size))])
+        if self.child not in h.mods:
+            child = fresh_utils()
+            if method == "fork":
+                fork_state(h, h.mods[w.proc], child, self.child)
+            instrument(child, self.child, fresh_lock=method != "fork")
+            h.mods[self.child] = child
+            h.conf[self.child] = conf_functions(child)
+            # the child's main thread begins in the REAL run wrapper (which installs what the process
+            # object carries) before any other thread of the child can exist
+            h.prologue = True
+            try:
+                child._process_run_wrapper(self)
+            finally:
+                h.prologue = False
         for x in h.workers.values():
             if x.proc == self.child:
                 x.started = True
 
     def stub_run(self, *a, **k):
-        h.me().run_program()
+        if not h.prologue:
+            h.me().run_program()
 
-    U._process_start_wrapper.__wrapped__ = stub_start
-    U._process_run_wrapper.__wrapped__ = stub_run
+    instrument(root, 0, fresh_lock=True)
 
-    @U.lock_tty
-    def probe(d, io):
-        w = h.me()
-        h.ev(w, 3)
-        w.park("body")
-        if d > 0:
-            probe(d - 1, io)
-        elif io:
-            n = w.nreq
-            w.nreq += 1
-            h.reqs.append((w.tid, n))
-            h.ev(w, 5, n)
-            w.park("wait")
-            r = h.reps.pop(0)
-            h.ev(w, 6, r[0], r[1])
-        w.park("after")
-        h.ev(w, 4)
+    def probe_of(proc):
+        """a lock_tty-decorated probe of that process (decorated by ITS instance of the library)"""
+        if proc not in h.probes:
+            @h.mods[proc].lock_tty
+            def probe(d, io):
+                w = h.me()
+                h.ev(w, 3)
+                w.park("body")
+                if d > 0:
+                    probe(d - 1, io)
+                elif io:
+                    n = w.nreq
+                    w.nreq += 1
+                    h.reqs.append((w.tid, n))
+                    h.ev(w, 5, n)
+                    w.park("wait")
+                    r = h.reps.pop(0)
+                    h.ev(w, 6, r[0], r[1])
+                w.park("after")
+                h.ev(w, 4)
 
-    h.probe = probe
+            h.probes[proc] = probe
+        return h.probes[proc]
+
+    h.probe_of = probe_of
 
     for w in h.workers.values():
         w.thread.start()
@@ -460,7 +563,19 @@ def run_schedule(case):
 
     blocked = [0]
 
+    def configure(item):
+        """a configuration change in a running process (performed on behalf of one of its threads)"""
+        proc, field, value = (item - CONF_BASE) // 8, (item - CONF_BASE) % 8 // 2, (item - CONF_BASE) % 2
+        if proc not in h.conf:
+            return False  # the process does not exist (yet)
+        f = h.conf[proc].get((field, value))
+        if f is not None:
+            f()
+        return True
+
     def grant(tid):
+        if tid >= CONF_BASE:
+            return configure(tid)
         if not can_move(tid):
             w = h.workers.get(tid)
             if w is not None and w.started and not w.finished and w.at is not None:
@@ -486,6 +601,8 @@ def run_schedule(case):
             effective.append(tid)
         # who could move now (used by the exhaustive enumeration of the thorough tier)
         enabled = [tid for tid in [TERM] + sorted(h.workers) if can_move(tid)]
+        # configuration changes offered to the enumeration: each at most once per schedule
+        enabled += [c for c in case.get("conf_items", []) if c not in sched and (c - CONF_BASE) // 8 in h.conf]
         # completion: round-robin until every worker is finished (recorded, replayed in Coq)
         ids = [TERM] + sorted(h.workers)
         for _ in range(case.get("completion_rounds", 400)):
@@ -528,7 +645,7 @@ def run_schedule(case):
         term.close()
     return {"log": h.log, "sched": effective, "unfinished": unfinished, "error": h.error,
             "locks_made": len(made), "enabled": enabled, "xres": h.xres, "leftover": leftover,
-            "blocked_picks": blocked[0]}
+            "blocked_picks": blocked[0], "starts_conf": starts_conf}
 
 
 # ------------------------------------------------------------------ real processes
@@ -612,9 +729,17 @@ def run_mp(case):
     time.sleep(0.01)
     kids = [P(target=mp_child, args=(arr, ready, go, 2 * n, n, hold, 4 * n, control)),
             P(target=mp_child, args=(arr, ready, go, 3 * n, n, hold, None, control))]
+    if m.get("disable_queries"):
+        # the library's configuration at the moment of the first start: queries disabled (re-enabled
+        # once both children are running); the hand-over must not depend on it
+        import term_image
+
+        term_image.disable_queries()
     kids[0].start()  # the lock is swapped here, racing with the early thread
     ths[1].start()
     kids[1].start()
+    if m.get("disable_queries"):
+        term_image.enable_queries()
     t0 = time.monotonic()
     while not (ready[2] and ready[3] and ready[4]) and time.monotonic() - t0 < 30:
         time.sleep(0.005)
